@@ -100,6 +100,17 @@ CHECKS = {
              "function totality is by exhaustive-over-names execution, not by a semantic model.",
         note=TRUST + "time bound enforced by SIGALRM; the two network-backed functions (#property, #statements) are excluded.",
         ref="DESIGN.md section 4 C05"),
+    "C08": dict(
+        technique="Coq proofs (frame arguments = expander's binding; expandTemplate binds the given table) + metamorphic oracle on the real frame API",
+        text="Theorems c08_frame_args_are_call_args (for all well-formed argument lists the make_frame/frame_args_index model "
+             "equals the expander's argument map: positional from 1 verbatim, named trimmed) and "
+             "c08_expand_template_binds_given_table (the 'k=v' arguments expandTemplate builds are bound back to exactly the "
+             "given table). frame.args, getParent (title and arguments through wrapper depth 1-2), preprocess, expandTemplate "
+             "and callParserFunction are each compared on the real code with the expansion of the equivalent wikitext on the "
+             "same context; frame.args also with the Coq model on the expanded argument texts.",
+        note=TRUST + "preprocess/callParserFunction/parent equivalences are decided by execution (they share the expander), "
+             "not by theorem; lupa, the Lua VM and sandbox files exercised not modelled; mw.ustring stubbed.",
+        ref="DESIGN.md section 4 C08"),
 }
 
 NOT_YET = "check not built yet in this round (planned, see DESIGN.md section 8)"
